@@ -836,7 +836,15 @@ func (fx *FnCtx) applyCall(st *State, ci *calleeInfo, recv *Val, args []Val, at 
 		if hasTag(e.Tags, "local") {
 			continue // mentions locals of the callee body: checked there, not usable by callers
 		}
-		st.assume(fx.specBool(cenv, e.Expr))
+		g := fx.specBool(cenv, e.Expr)
+		// a postcondition of the callee that is excused by a known finding is only known outside the finding's region
+		if r, excused := fx.calleeRegion(ci.key, "ensures["+e.Label+"]", pre); excused {
+			if r == "" {
+				continue
+			}
+			g = "(=> (not " + r + ") " + g + ")"
+		}
+		st.assume(g)
 	}
 	st.calls = append(st.calls, callRec{key: ci.key, named: copyNamed(cenv.named), heap: copyHeapMap(preHeap)})
 	res = append(res, outcome{st: st})
